@@ -595,6 +595,7 @@ namespace bloch::runtime {
         }
         m_env.clear();
         m_returnValue = {};
+        m_limbo.clear();
         for (auto& kv : m_classTable) {
             if (kv.second)
                 kv.second->staticStorage.clear();
@@ -1349,7 +1350,20 @@ namespace bloch::runtime {
             }
         }
         for (auto& obj : unreachable) {
-            for (auto& f : obj->fields) f = {};
+            for (auto& f : obj->fields) {
+                // A reference from garbage to an object that is still in use must not decide when
+                // that object's destructor runs, or the output would depend on when the collector
+                // happened to run. Keep such references until teardown, exactly as if the garbage
+                // had never been collected.
+                if (f.type == Value::Type::Object && f.objectValue && f.objectValue->marked) {
+                    m_limbo.push_back(f.objectValue);
+                } else if (f.type == Value::Type::ObjectArray) {
+                    for (const auto& o : f.objectArray)
+                        if (o && o->marked)
+                            m_limbo.push_back(o);
+                }
+                f = {};
+            }
         }
         // unreachable will drop here and be reclaimed without running destructors
         m_allocSinceGc = 0;
